@@ -204,11 +204,21 @@ def rule_lstsq(repo, tier):
     f = repo.func(SOLVER, 'LSTSQ.forward')
     pths, _ = paths.function_paths(f.node, limit=512)
     n = 0
+    truths = {}
+    for ev, ex in pths:
+        if ex == 'return':
+            for e in ev:
+                if e[0] == 'assume':
+                    truths.setdefault(id(e[1]), set()).add(bool(e[2]))
     for ev, ex in pths:
         if ex != 'return':
             continue
         res_names, checked = set(), False
         for e in ev:
+            if e[0] == 'assume' and len(truths.get(id(e[1]), ())) == 1 and _touch(e[1], res_names) and \
+                    any((dotted(c.func) or '').split('.')[-1] in ('isnan', 'isfinite', 'hasnan') for c in paths.calls_in(e[1])):
+                checked = True                  # the spelled-out assertion: this (returning) path went past `if <NaN test of the solution>: raise`
+                continue
             if e[0] != 'stmt':
                 continue
             st = e[1]
@@ -735,7 +745,7 @@ def rule_cgrec(repo, tier):
         ok = False
         what = src(t.test)[:60]
         for c in cmp_:
-            lhs = c.left
+          for lhs in [c.left] + list(c.comparators):                       # `norm(r) < atol` and `atol > norm(r)` are the same test
             # norm(r) / r.norm() / (r * r).sum().sqrt() / r.square().sum().sqrt()
             names = {y.id for y in ast.walk(lhs) if isinstance(y, ast.Name)} - {'torch'}
             is_norm = any(isinstance(y, ast.Call) and ((dotted(y.func) or '').split('.')[-1] in ('norm', 'vector_norm') or
